@@ -546,8 +546,17 @@ def rule_reasm_contig(ctx, cfg, F):
                 why = "length %s does not subtract the write position %s" % (expr_str(le), expr_str(W))
         else:
             why = "pointer is %s" % expr_str(pe)[:80]
+        # after the read the length must become W + max(result, 0) before the next read / return
+        adv = False
+        for b2, t2 in g.calls_to("std::vec::Vec::set_len"):
+            e2 = expr_strip_blocks(ex.of_operand(t2["args"][1]))
+            if b2 in g.reachable(t["to"]) and e2[0] == "bin" and e2[1] == "Add" and "libc::recv" in repr(e2) and g.all_paths_pass(t["to"], [b2])[0]:
+                adv = True
+        if ok and not adv:
+            ok = False
+            why = "no set_len(W + max(result, 0)) follows the read on every path: the buffer's length does not track the bytes actually received"
         if ok:
-            R.ok("follow-up read: ptr = buffer[W..], len = end - W, W = len(buffer)", g.loc(b), cfg)
+            R.ok("follow-up read: ptr = buffer[W..], len = end - W, W = len(buffer); length advanced by the bytes received", g.loc(b), cfg)
         else:
             R.violate("%s:write-window" % g.path, "the follow-up read's destination window is not buffer[W..W+(end-W)] with W = len(buffer): %s" % why, g.path, g.loc(b), config=cfg)
     R.count("followup_reads[%s]" % cfg, n)
@@ -910,3 +919,124 @@ def _copy_of(f, l, target):
             return False
         l = op_local(ds[0][2]["rv"]["a"][0])
     return False
+
+
+def _inline_pure(F, e, depth=0):
+    """inline argument-free crate functions (e.g. get_max_fragment_size()) by their return expression"""
+    if not isinstance(e, tuple) or depth > 3:
+        return e
+    if e and e[0] == "call" and not e[2]:
+        g = F.fns.get(e[1]) or next((x for x in F.fns.values() if strip_generics(x.path) == e[1]), None)
+        if g is not None and g.argc == 0 and g.path.startswith("platform::"):
+            ex = Expr(g)
+            return _inline_pure(F, expr_strip_blocks(ex.of_local(0)), depth + 1)
+    return tuple(_inline_pure(F, x, depth) if isinstance(x, tuple) else x for x in e)
+
+
+def rule_size_agree(ctx, cfg, F):
+    R = ctx.rule("SIZE-AGREE", "the sender's single-packet threshold T (guard `len(data) <= T` of the unfragmented attempt) and the capacity C of the receiver's first-packet buffer derive from the "
+                 "same expression (C = T or C = T + non-negative constant); the follow-up chunk size is the same function of the (only shrinking) estimate on the sender as of the system "
+                 "value on the receiver")
+    f, ff = send_fn(F), first_fragment_fn(F)
+    g = next((x for x in F.fns.values() if any(strip_generics(callee_name(t)) == "libc::recv" for _, t in x.calls())), None)
+    if not f or not ff or not g:
+        R.violate("anchor-missing:size-functions", "send / reassembly functions not found", config=cfg)
+        return
+    tr = Tracer(f)
+    ex = Expr(f)
+    data_param = next((i for i in range(1, f.argc + 1) if f.local_ty(i) == "&[u8]"), None)
+    ffname = strip_generics(ff.path)
+    single = [b for b, t in f.calls() if strip_generics(callee_name(t)) == ffname and not _in_loop(f, b)]
+    R.count("single_packet_sites[%s]" % cfg, len(single))
+    T = None
+    for sb in single:
+        for s in f.live_blocks():
+            if f.term(s)["t"] != "switch" or not f.dominates(s, sb):
+                continue
+            for tgt in f.succ(s):
+                if not (tgt == sb or f.dominates(tgt, sb)):
+                    continue
+                for lab in edge_label(f, s, tgt):
+                    if lab["kind"] != "cmp":
+                        continue
+                    ea, eb = expr_strip_blocks(ex.of_operand(lab["a"])), expr_strip_blocks(ex.of_operand(lab["b"]))
+                    is_len = lambda e: e == ("call", "core::slice::len", (("param", data_param),))
+                    if is_len(ea) and ((lab["op"] == "Le" and lab["truth"]) or (lab["op"] == "Gt" and not lab["truth"]) or (lab["op"] == "Lt" and lab["truth"])):
+                        T = eb
+                    elif is_len(eb) and ((lab["op"] == "Ge" and lab["truth"]) or (lab["op"] == "Lt" and not lab["truth"]) or (lab["op"] == "Gt" and lab["truth"])):
+                        T = ea
+    if T is None:
+        R.violate("%s:single-packet-threshold" % f.path, "the single-packet attempt is not guarded by a plain comparison `len(data) <= T`: the threshold cannot be related to the receiver's first-packet buffer",
+                  f.path, f.loc(single[0]) if single else None, config=cfg)
+        return
+    exg = Expr(g)
+    C = None
+    for b, t in g.calls_to("std::vec::Vec::with_capacity"):
+        if "u8" in " ".join(t.get("generics", [])):
+            C = expr_strip_blocks(exg.of_operand(t["args"][0]))
+    if C is None:
+        R.violate("%s:no-first-buffer" % g.path, "the receiver's first-packet buffer (Vec::<u8>::with_capacity) was not found", g.path, config=cfg)
+        return
+    Tn, Cn = _inline_pure(F, T), _inline_pure(F, C)
+    ok = Tn == Cn or (Cn[0] == "bin" and Cn[1] == "Add" and ((Cn[2] == Tn and Cn[3][0] == "const" and Cn[3][1] >= 0) or (Cn[3] == Tn and Cn[2][0] == "const" and Cn[2][1] >= 0)))
+    if ok:
+        R.ok("single-packet threshold and first-packet buffer agree: %s" % expr_str(T), f.loc(single[0]), cfg)
+    else:
+        R.violate("%s:threshold-vs-receive-buffer" % f.path, "the sender sends up to %s bytes in one packet but the receiver's first-packet buffer holds %s: for some socket buffer sizes a single packet is "
+                  "larger than the buffer and is truncated" % (expr_str(T), expr_str(C)), f.path, f.loc(single[0]), config=cfg)
+    # follow-up chunk: same crate function on both sides
+    def chunk_fn(fn, exx, call_block):
+        t = fn.term(call_block)
+        return t
+    fu = followup_fn(F)
+    funame = strip_generics(fu.path)
+    s_fn = r_fn = None
+    for b, t in f.calls():
+        if strip_generics(callee_name(t)) == funame:
+            e = expr_strip_blocks(ex.of_operand(t["args"][1]))
+            s_fn = _find_call(e, lambda n: n.startswith("platform::") and n.endswith("fragment_size"))
+            if s_fn is None:
+                # the end of the slice is a loop variable: look at its definitions in the follow-up branch
+                for v in _vars(e):
+                    for (db, si, node) in f.defs().get(v, []):
+                        if si is not None and _in_loop(f, db):
+                            ee = expr_strip_blocks(ex.of_rvalue(node["rv"], 0, db))
+                            c = _find_call(ee, lambda n: n.startswith("platform::") and n.endswith("::fragment_size"))
+                            if c:
+                                s_fn = c
+    for b, t in g.calls_to("libc::recv"):
+        e = expr_strip_blocks(exg.of_operand(t["args"][2]))
+        r_fn = _find_call(e, lambda n: n.startswith("platform::") and n.endswith("::fragment_size"))
+    if s_fn and r_fn and s_fn[1] == r_fn[1]:
+        rarg = r_fn[2][0] if r_fn[2] else None
+        sys_ok = rarg is not None and "static" in repr(rarg)
+        if sys_ok:
+            R.ok("follow-up chunk = %s(estimate) on the sender, %s(system value) on the receiver" % (s_fn[1].split("::")[-1], r_fn[1].split("::")[-1]), g.loc(0), cfg)
+        else:
+            R.violate("%s:receive-window-argument" % g.path, "the receiver's follow-up window is not computed from the system send-buffer size (%s)" % expr_str(rarg) if rarg else "?", g.path, config=cfg)
+    else:
+        R.violate("%s:chunk-functions-differ" % f.path, "sender and receiver size their follow-up chunks with different functions (%s vs %s)" % (s_fn and s_fn[1], r_fn and r_fn[1]), f.path, config=cfg)
+
+
+def _vars(e):
+    out = []
+    if isinstance(e, tuple):
+        if e and e[0] == "var":
+            out.append(e[1])
+        for x in e:
+            if isinstance(x, tuple):
+                out += _vars(x)
+    return out
+
+
+def _find_call(e, pred):
+    if not isinstance(e, tuple):
+        return None
+    if e and e[0] == "call" and pred(e[1]):
+        return e
+    for x in e:
+        if isinstance(x, tuple):
+            r = _find_call(x, pred)
+            if r:
+                return r
+    return None
